@@ -189,6 +189,7 @@ impl<'a> Cx<'a> {
                         Some(Ty::Opt(t)) => Some(*t),
                         _ => None,
                     },
+                    _ if rt == Some(Ty::Raw) => self.g.get_fn(&self.file, &format!("StackVec::{}", name)).map(|f| f.ret.clone()),
                     _ if matches!(rt, Some(Ty::Vec) | Some(Ty::Big)) => self.deleg_ret_ty(rt.as_ref()?, &name),
                     _ => {
                         let k = self.method_key(rt.as_ref()?, &name)?;
@@ -388,6 +389,16 @@ impl<'a> Cx<'a> {
             }
             E::Try(t) => {
                 let v = self.lower_expr(&t.expr, None)?;
+                if v.ty == Ty::Flag {
+                    // raw mode (rule 28): `None` is propagated, with the state as it is
+                    let none = match &self.ret_ty {
+                        Ty::Flag => self.ret_term(&Val::new("false", Ty::Flag)),
+                        Ty::Opt(_) => self.ret_term(&Val::new("None", self.ret_ty.clone())),
+                        _ => return err(e.span(), "`?` is only supported in a function returning Option"),
+                    };
+                    self.push(S::If { c: v.t, m: None, a: vec![], b: vec![S::Ret(none)], outs: vec![] });
+                    return Ok(Val::unit());
+                }
                 let none = self.ret_term(&Val::new("None", self.ret_ty.clone()));
                 if v.ty == Ty::OptUpd {
                     // rule 15: `Some` carries the updated `&mut` arguments, `None` is propagated
@@ -493,6 +504,9 @@ impl<'a> Cx<'a> {
                 if v.alias.is_some() {
                     return err(p.span(), "an alias of a vector element may only be used as `*alias`");
                 }
+                if v.ptr.is_some() {
+                    return err(p.span(), "a raw pointer may only be used as the argument of a `ptr::` / `slice::` primitive");
+                }
                 if v.flex {
                     // first typed use of a literal-initialised variable (rule 2)
                     self.fix_flex(&n, expected);
@@ -510,6 +524,7 @@ impl<'a> Cx<'a> {
             }
             if n == "None" {
                 return match expected {
+                    Some(Ty::Flag) => Ok(Val::new("false", Ty::Flag)),
                     Some(t @ Ty::Opt(_)) => Ok(Val::new("None", t.clone())),
                     _ => err(p.span(), "`None` of unknown type"),
                 };
@@ -535,6 +550,11 @@ impl<'a> Cx<'a> {
             if let Some((lit, t)) = int_assoc_const(&s) {
                 return Ok(Val::new(lit, Ty::Int(t)));
             }
+        }
+        if self.raw_mode && s == "bigint::BIGINT_LIMBS" {
+            // rule 28: the capacity is a parameter of the model
+            self.needs.l = true;
+            return Ok(Val::new("(BIGINT_LIMBS L)", Ty::Int(IntTy::Usize)));
         }
         match s.as_str() {
             "FastPathRadix::Ten" => Ok(Val::new("true", Ty::Radix)),
@@ -591,6 +611,9 @@ impl<'a> Cx<'a> {
             "Self" => self.self_kind.clone().unwrap_or_default(),
             n => n.to_string(),
         };
+        if self.raw_mode && sname == "StackVec" {
+            return self.lower_struct_raw(s);
+        }
         if let Some((field, inner, outer)) = match sname.as_str() {
             "Bigint" => Some(("data", Ty::Vec, Ty::Big)),
             "ReverseView" => Some(("inner", Ty::Slice, Ty::RView)),
@@ -971,8 +994,13 @@ impl<'a> Cx<'a> {
             return err(sp, "qualified path `<T as Trait>::..` is unsupported");
         }
         self.check_path_args(&p.path)?;
-        let s = path_str(&p.path);
+        let s = if self.raw_mode { crate::raw::raw_call_key(self, &p.path) } else { path_str(&p.path) };
         let args: Vec<&syn::Expr> = c.args.iter().collect();
+        if self.raw_mode {
+            if let Some(v) = self.lower_call_raw(sp, &s, &args)? {
+                return Ok(v);
+            }
+        }
         // callback parameter
         if let Some((_, v)) = self.lookup(&s) {
             if let Ty::Fun(ps, r) = v.ty.clone() {
@@ -995,6 +1023,14 @@ impl<'a> Cx<'a> {
                 };
                 if args.len() != 1 {
                     return err(sp, "Some takes one argument");
+                }
+                if expected == Some(&Ty::Flag) {
+                    // raw mode (rule 28): `Some(())` of an `Option<()>` result
+                    let v = self.lower_expr(args[0], Some(&Ty::Unit))?;
+                    if v.ty != Ty::Unit {
+                        return err(sp, "`Some(..)` of a non-unit where `Option<()>` is expected");
+                    }
+                    return Ok(Val::new("true", Ty::Flag));
                 }
                 let v = self.lower_expr(args[0], ex.as_ref())?;
                 if v.ty == Ty::OptUpd {
